@@ -26,7 +26,7 @@ FLOORS = {"quick": {"positions_compared": 80000, "documents_checked": 3500, "fau
           "thorough": {"positions_compared": 600000, "documents_checked": 30000, "fault_locations_checked": 25000,
                        "corpus_positions_checked": 15000, "distinct:layout-before-token": 14, "positions_through_file_front_ends": 7000}}
 ASSUMPTIONS = ["mf/render.py tracks (line, column) of every token it writes: a line break is counted at LF only (CRLF = one break), a tab is one column"]
-DOMAIN = gen.DOMAIN + ["include-free text; keywords are not duplicated inside one object (which occurrence a duplicated key records is not stated)"]
+DOMAIN = gen.DOMAIN + ["include-free text; for a keyword written twice in one object the position compared is that of the last occurrence (the one whose value the dictionary holds)"]
 
 
 def h(s):
@@ -83,6 +83,13 @@ def check_node(res, case, node, d, path="$"):
                 check_values(res, case, sub, it.kw.pos, kp)
             continue
         rec = pd.get(k)
+        if it.kind == "attr" and any(x is not it and x.kind == "attr" and x.key == k for x in node.items):
+            # a keyword written twice in one object: the dictionary holds the value of the LAST occurrence, and the recorded position
+            # (which validation messages about that value carry) is that occurrence's
+            if it is not [x for x in node.items if x.kind == "attr" and x.key == k][-1]:
+                res.count("duplicated_keyword_earlier_occurrence_skipped")
+                continue
+            res.count("duplicated_keyword_last_occurrence_compared")
         if it.kind == "repeat":
             i = seen_repeat.get(k, 0)
             seen_repeat[k] = i + 1
@@ -166,7 +173,7 @@ def _run(ctx, tmpdir):
     r = ctx.rng("c08")
     n = ctx.n(1600, 16000)
     for j in range(n):
-        nodes = gen.gen_document(r, gen.GenOpts(gated=ctx.gated, p_key=r.choice([0.2, 0.4]), dup=0.0,
+        nodes = gen.gen_document(r, gen.GenOpts(gated=ctx.gated, p_key=r.choice([0.2, 0.4]), dup=0.08 if j % 3 == 0 else 0.0,
                                                 symbol_files="symbolset-root-bookkeeping" not in ctx.gated))
         for s in [render.CANONICAL] + render.surfaces(r, 2 if ctx.quick else 3):
             s.gap_comments = r.choice([0.0, 0.2, 0.4])
